@@ -209,6 +209,65 @@ theorem completeness_nxdomain_closest {q s : Name} {qtype : Nat} {nsecs : List N
     (coversIn_of_closest (hZ wn hwm) hnw (List.IsPrefix.trans hapexce (List.prefix_append _ _))
       hw1 hw2) (fun h => hwd h.1)
 
+/-! ### NODATA at an empty non-terminal -/
+
+/-- **The NODATA proof for an empty non-terminal is accepted**: the query name exists in `Z`
+but owns no data, the response carries a link of `Z` covering it (not a parent-side delegation
+record above it).  No SOA is needed unless the covering link is the last of the chain. -/
+theorem completeness_ent_nodata {q : Name} {qtype : Nat} {soa : Option Name}
+    {nsecs : List Nsec} {Z : ZoneView} {cq : Nsec}
+    (hwf : InputsWF q soa [] nsecs)
+    (hapex : ∀ s, soa = some s → K s = Z.apex) (hin : ∀ s, soa = some s → K s <+: K q)
+    (hZ : ConsistentWith nsecs Z)
+    (hex : Z.Exists (K q)) (hnd : ¬ Z.hasData (K q))
+    (hcq : cq ∈ nsecs) (hcqc : covers soa q cq = true) :
+    verifyNsec q qtype soa 0 [] nsecs = .secure := by
+  -- no record is owned by the query name
+  have hdirect : nsecs.find? (fun r => Name.eq q r.owner) = none := by
+    rw [List.find?_eq_none]
+    intro r hr he
+    have hk := (eq_iff_key hwf.q (hwf.nsecs r hr).1).1 (by simpa using he)
+    exact hnd (hk ▸ link_owner_data (hZ r hr))
+  obtain ⟨c, hc⟩ := find?_some_of_mem (p := covers soa q) hcq hcqc
+  have hc' : findCovering soa q nsecs = some c := hc
+  obtain ⟨hcm, hcc⟩ := findCovering_some hc'
+  have hcl := hZ c hcm
+  obtain ⟨hccov, hcdel⟩ := coversIn_of_covers (Z := Z) hwf.q (hwf.nsecs c hcm) hwf.soa hapex
+    hin hcl hcc
+  -- the next name of the covering link is below the query name
+  obtain ⟨m, hm, hqm⟩ := hex
+  have hqm' : K q < m := lt_of_le_of_ne' (prefix_le hqm) (fun h => hnd (h ▸ hm))
+  have hom : K c.owner < m := lt_trans hccov.1 hqm'
+  have hbelow : K q <+: K c.next ∧ K q ≠ K c.next := by
+    apply Classical.byContradiction
+    intro hnb
+    obtain ⟨hd, hpre⟩ := gap_of_link hcl hm hom (below_in_gap hcl hccov hqm hnb)
+    rcases prefix_total hpre hqm with h | h
+    · exact hcdel ⟨hd, h⟩
+    · exact lt_irrefl _ (lt_of_lt_of_le hccov.1 (prefix_le h))
+  have hent : isStrictDescendant c.next q = true := by
+    unfold isStrictDescendant
+    rw [Bool.and_eq_true]
+    refine ⟨(zoneOf_iff _ _).2 hbelow.1, ?_⟩
+    rw [Bool.not_eq_eq_eq_not, Bool.not_true, Bool.eq_false_iff]
+    intro he
+    exact hbelow.2 ((eq_iff_key (hwf.nsecs c hcm).2 hwf.q).1 he).symm
+  have hst : (startOf q soa (!([] : List Ans).isEmpty)).isSome = true := by
+    unfold startOf
+    cases soa with
+    | none => rfl
+    | some s =>
+      have : s.zoneOf q = true := (zoneOf_iff _ _).2 (hin s rfl)
+      simp [this]
+  obtain ⟨n0, hn0⟩ := Option.isSome_iff_exists.1 hst
+  have hcov : verifyCovered q qtype soa 0 [] nsecs n0 c = .secure := by
+    unfold verifyCovered
+    simp only [hent]
+    rfl
+  unfold verifyNsec
+  rw [if_neg (by decide)]
+  simp only [hn0, hdirect, hc', hcov]
+
 /-! ### NODATA at an existing owner -/
 
 /-- **A NODATA proof owned by the query name is accepted**: the first record of the response
